@@ -85,6 +85,7 @@ func Run(p *load.Program, tier string) *oblig.Set {
 	}
 	e.rules()
 	e.clone()
+	e.dumpWalk()
 	return s
 }
 
